@@ -1,3 +1,173 @@
 package main
 
-func c15E2E(c *Ctx) {}
+// C15 end-to-end part: flooders and quiet victims on separate subnets against the real binary.
+
+import (
+	"fmt"
+	"net/http"
+	"strings"
+	"time"
+
+	"github.com/IrineSistiana/mosproxy/verif/internal/dnsclient"
+	"github.com/miekg/dns"
+)
+
+func c15E2E(c *Ctx) {
+	for rep := 0; rep < c.N(1, 6); rep++ {
+		c15E2EOnce(c, rep)
+	}
+}
+
+func c15E2EOnce(c *Ctx, rep int) {
+	const rate, burst = 10, 40
+	b, err := NewBed(c, fmt.Sprintf("limiter%d", rep), BedOpts{Upstreams: []string{"pipe"}, ClientAddrHeader: "X-Client-Addr",
+		Limiter: fmt.Sprintf("  client:\n    limit: %d\n    burst: %d\n", rate, burst)}) // masks omitted: /24 and /48
+	if err != nil {
+		c.startFailure(err, "c15-e2e")
+		return
+	}
+	defer func() {
+		alive := b.Proxy.Alive()
+		res := b.Stop()
+		if !alive {
+			c.Violation("proxy-died", "the proxy died in the limiter scenario: "+res.Panic, map[string]any{"panic": res.Panic})
+		}
+	}()
+	forwarded := func(name string) bool {
+		for _, ql := range b.Up["pipe"].Log() {
+			if strings.EqualFold(ql.Name, name) {
+				return true
+			}
+		}
+		return false
+	}
+	oct := 10 + rep*7%200
+	// ---- UDP flood from one /24
+	flooder := fmt.Sprintf("127.%d.1.1", oct)
+	uc, err := dnsclient.DialUDP(flooder, b.L["udp"])
+	if err != nil {
+		c.Inconclusive("bind flooder: " + err.Error())
+		return
+	}
+	const nFlood = 80
+	names := make([]string, nFlood)
+	t0 := time.Now()
+	for i := 0; i < nFlood; i++ {
+		names[i] = fmt.Sprintf("ok-fl%dr%d.pipe.test.", i, rep)
+		uc.Send(mkQuery(uint16(i+1), names[i], dns.TypeA, dns.ClassINET, false))
+		time.Sleep(time.Millisecond)
+	}
+	time.Sleep(400 * time.Millisecond)
+	window := time.Since(t0)
+	admitted, refused := 0, 0
+	for _, p := range uc.Received() {
+		m := new(dns.Msg)
+		if m.Unpack(p.Data) != nil || len(m.Question) != 1 {
+			continue
+		}
+		c.Ev.Eval(1)
+		switch m.Rcode {
+		case dns.RcodeRefused:
+			refused++
+			if forwarded(m.Question[0].Name) {
+				c.Violation("e2e:refused-but-forwarded:udp", "UDP query "+m.Question[0].Name+" was answered REFUSED by the limiter but reached the upstream", map[string]any{"name": m.Question[0].Name})
+			}
+		case dns.RcodeSuccess:
+			admitted++
+		}
+	}
+	uc.Close()
+	if got := admitted + refused; got < nFlood*9/10 {
+		c.Violation("e2e:refused-query-dropped:udp", fmt.Sprintf("%d of %d flood queries got a response (admitted %d, REFUSED %d): a query refused by the limiter must be answered REFUSED", got, nFlood, admitted, refused), map[string]any{"admitted": admitted, "refused": refused})
+	}
+	// every admitted UDP query costs at least 1
+	if bound := float64(burst) + rate*window.Seconds() + 1; float64(admitted) > bound {
+		c.Violation("e2e:conservation:udp", fmt.Sprintf("%d UDP queries of one /24 admitted in %v with limit %d burst %d (bound %.1f)", admitted, window, rate, burst, bound), map[string]any{"admitted": admitted, "window_ms": window.Milliseconds()})
+	}
+	if refused == 0 {
+		c.Violation("e2e:limiter-inactive", fmt.Sprintf("a flood of %d queries from one address with limit %d burst %d was never refused", nFlood, rate, burst), map[string]any{"admitted": admitted})
+		return
+	}
+	c.Ev.Count("e2e_udp_flood_admitted", int64(admitted))
+	c.Ev.Count("e2e_udp_flood_refused", int64(refused))
+	// ---- quiet victims in other subnets, right after the flood
+	victims := []struct{ kind, ip string }{
+		{"udp", fmt.Sprintf("127.%d.2.2", oct)}, {"tcp", fmt.Sprintf("127.%d.3.3", oct)}, {"gnet", fmt.Sprintf("127.%d.4.4", oct)}, {"tls", fmt.Sprintf("127.%d.5.5", oct)},
+		{"quic", fmt.Sprintf("127.%d.6.6", oct)}, {"quic", fmt.Sprintf("127.%d.7.7", oct)}, {"quic", fmt.Sprintf("127.%d.8.8", oct)}, {"quic", fmt.Sprintf("127.%d.9.9", oct)},
+	}
+	for i, v := range victims {
+		name := fmt.Sprintf("ok-victim%dr%d.pipe.test.", i, rep)
+		x := b.Exchange(v.kind, mkQuery(uint16(1000+i), name, dns.TypeA, dns.ClassINET, false), xOpts{LocalIP: v.ip, Timeout: 5 * time.Second})
+		c.Ev.Eval(1)
+		cs := map[string]any{"listener": v.kind, "victim": v.ip, "flooder": flooder, "limit": rate, "burst": burst}
+		m := new(dns.Msg)
+		switch {
+		case x.Err != nil || len(x.Resp) == 0:
+			c.Violation("e2e:victim-refused:"+v.kind, fmt.Sprintf("a client in its own, unused subnet (%s, %s listener) got no answer after other subnets used their budgets: %v", v.ip, v.kind, x.Err), cs)
+		case m.Unpack(x.Resp) != nil:
+			c.Violation("e2e:victim-garbage:"+v.kind, "undecodable response for the victim", cs)
+		case m.Rcode != dns.RcodeSuccess:
+			c.Violation("e2e:victim-refused:"+v.kind, fmt.Sprintf("a client in its own, unused subnet (%s, %s listener) was answered rcode %d after other subnets used their budgets", v.ip, v.kind, m.Rcode), cs)
+		default:
+			c.Ev.Distinct("e2e", "victim", v.kind)
+			c.Ev.Count("e2e_victims_served", 1)
+		}
+	}
+	// ---- same-subnet client right after the flood shares the (empty) budget: conservation across addresses
+	sib := fmt.Sprintf("127.%d.1.77", oct)
+	sibAdmitted := 0
+	t1 := time.Now()
+	for i := 0; i < 30; i++ {
+		x := b.Exchange("udp", mkQuery(uint16(2000+i), fmt.Sprintf("ok-sib%dr%d.pipe.test.", i, rep), dns.TypeA, dns.ClassINET, false), xOpts{LocalIP: sib, Timeout: 2 * time.Second})
+		m := new(dns.Msg)
+		if x.Err == nil && m.Unpack(x.Resp) == nil && m.Rcode == dns.RcodeSuccess {
+			sibAdmitted++
+		}
+	}
+	w2 := time.Since(t0)
+	if bound := float64(burst) + rate*w2.Seconds() + 1; float64(admitted+sibAdmitted) > bound {
+		c.Violation("e2e:conservation:subnet-shared", fmt.Sprintf("%d queries of one /24 (two addresses) admitted in %v with limit %d burst %d (bound %.1f)", admitted+sibAdmitted, w2, rate, burst, bound), map[string]any{"admitted": admitted + sibAdmitted})
+	}
+	_ = t1
+	// ---- DoH: v6 subnets through the client address header, 503 on refusal
+	url := "http://" + b.L["http"] + "/dns-query"
+	hc := dnsclient.NewDoH(url, nil, "h1", fmt.Sprintf("127.%d.20.1", oct))
+	defer hc.Close()
+	v6flooder := fmt.Sprintf("2001:db8:%x::5", 0x100+rep)
+	ok200, n503 := 0, 0
+	for i := 0; i < 40; i++ {
+		name := fmt.Sprintf("ok-h%dr%d.pipe.test.", i, rep)
+		r := hc.Do(http.MethodPost, mkQuery(uint16(i), name, dns.TypeA, dns.ClassINET, false), map[string]string{"X-Client-Addr": v6flooder})
+		c.Ev.Eval(1)
+		switch {
+		case r.Err != nil:
+		case r.Status == 503:
+			n503++
+			if forwarded(name) {
+				c.Violation("e2e:refused-but-forwarded:http", "DoH query "+name+" was refused with 503 but reached the upstream", map[string]any{"name": name})
+			}
+		case r.Status == 200:
+			ok200++
+		default:
+			c.Violation("e2e:refusal-status:http", fmt.Sprintf("DoH request under rate limiting answered with status %d (expected 200 or 503)", r.Status), map[string]any{"status": r.Status})
+		}
+	}
+	if n503 == 0 {
+		c.Violation("e2e:limiter-inactive:http", fmt.Sprintf("40 DoH queries from one IPv6 address (cost 2+3 each, burst %d) were never refused", burst), map[string]any{"ok": ok200})
+	}
+	c.Ev.Count("e2e_doh_flood_200", int64(ok200))
+	c.Ev.Count("e2e_doh_flood_503", int64(n503))
+	hv := dnsclient.NewDoH(url, nil, "h1", fmt.Sprintf("127.%d.21.1", oct))
+	defer hv.Close()
+	for i, victim := range []string{fmt.Sprintf("2001:db8:%x::9", 0x200+rep), fmt.Sprintf("::ffff:10.%d.7.7", rep), fmt.Sprintf("10.%d.8.8", rep)} {
+		r := hv.Do(http.MethodPost, mkQuery(uint16(3000+i), fmt.Sprintf("ok-hv%dr%d.pipe.test.", i, rep), dns.TypeA, dns.ClassINET, false), map[string]string{"X-Client-Addr": victim})
+		c.Ev.Eval(1)
+		if r.Err != nil || r.Status != 200 {
+			c.Violation("e2e:victim-refused:http", fmt.Sprintf("DoH client %s in its own unused subnet got status %d (%v) after another /48 used its budget", victim, r.Status, r.Err), map[string]any{"victim": victim, "flooder": v6flooder})
+		} else {
+			c.Ev.Distinct("e2e", "victim-http", i)
+			c.Ev.Count("e2e_victims_served", 1)
+		}
+	}
+	c.Ev.Sample(map[string]any{"part": "e2e", "flooder": flooder, "flood_admitted": admitted, "flood_refused": refused, "doh_flooder": v6flooder, "doh_200": ok200, "doh_503": n503})
+}
